@@ -99,7 +99,8 @@ func TransformModuleFilesToModel( //nolint:funlen,gocognit,cyclop
 		}
 
 		for _, typeDef := range mdl.GetTypeDefinitions() {
-			_, extension := typeDefExtensions[typeDef.GetType()]
+			// a file can both define and extend a type: only the definition registered as extension is one
+			extension := typeDefExtensions[typeDef.GetType()] == typeDef
 			if slices.Contains(types, typeDef.GetType()) && !extension {
 				lineIndex := utils.GetTypeLineNumber(typeDef.GetType(), lines)
 				line, col := utils.ConstructLineAndColumnData(lines, lineIndex, typeDef.GetType())
